@@ -196,32 +196,36 @@ structure Acc where
   trace : List (Nat × Nat × Bool) := []      -- `distinguishable_paths` calls (pe, e, result), in order
   deriving Repr, Inhabited
 
+/-- models.py:145-156: the same-parent shortcuts.  `.ok none` = `continue`, `.ok (some acc)` = go on
+    to `distinguishable_paths`, `.error` = exception -/
+def Ctx.stage1 (e : Nat) (cp : List Nat) (pe : Nat) (pp : List Nat) (acc : Acc) : Except CMErr (Option Acc) :=
+  let sameParent := pp.getLast? == cp.getLast? && pp.getLast?.isSome
+  let parentKind := (M.node (pp.getLast?.getD 0)).kind
+  if sameParent then
+    if parentKind == .all || parentKind == .choice then
+      if M.v11 && M.isAny pe && !M.isAny e then .ok (some { acc with precs := acc.precs ++ [(pe, e)] })
+      else if M.v11 && M.isAny e && !M.isAny pe then .ok (some { acc with precs := acc.precs ++ [(e, pe)] })
+      else .error (.sameGroup pe e)
+    else if M.univocal pe then .ok none
+    else .ok (some acc)
+  else .ok (some acc)
+
+/-- models.py:158-166: the path test; `none` = no exception -/
+def Ctx.stage2 (e : Nat) (cp : List Nat) (pe : Nat) (pp : List Nat) (acc : Acc) : Acc × Option CMErr :=
+  let d := M.distinguishable (pp ++ [pe]) (cp ++ [e])
+  let acc := { acc with trace := acc.trace ++ [(pe, e, d)] }
+  if d then (acc, none)
+  else if M.v11 && M.isAny pe && !M.isAny e then ({ acc with precs := acc.precs ++ [(pe, e)] }, none)
+  else if M.v11 && M.isAny e && !M.isAny pe then ({ acc with precs := acc.precs ++ [(e, pe)] }, none)
+  else (acc, some (.upa pe e))
+
 /-- what happens for one `(pe, previous_path)` of the inner loop after the EDC and overlap tests;
     `none` = no exception -/
 def Ctx.upaStep (e : Nat) (cp : List Nat) (pe : Nat) (pp : List Nat) (acc : Acc) : Acc × Option CMErr :=
-  let sameParent := pp.getLast? == cp.getLast? && pp.getLast?.isSome
-  let parentKind := (M.node (pp.getLast?.getD 0)).kind
-  -- models.py:145-156
-  let stage1 : Except CMErr (Option Acc) :=
-    if sameParent then
-      if parentKind == .all || parentKind == .choice then
-        if M.v11 && M.isAny pe && !M.isAny e then .ok (some { acc with precs := acc.precs ++ [(pe, e)] })
-        else if M.v11 && M.isAny e && !M.isAny pe then .ok (some { acc with precs := acc.precs ++ [(e, pe)] })
-        else .error (.sameGroup pe e)
-      else if M.univocal pe then .ok none
-      else .ok (some acc)
-    else .ok (some acc)
-  match stage1 with
+  match M.stage1 e cp pe pp acc with
   | .error err => (acc, some err)
   | .ok none => (acc, none)
-  | .ok (some acc) =>
-    -- models.py:158-166
-    let d := M.distinguishable (pp ++ [pe]) (cp ++ [e])
-    let acc := { acc with trace := acc.trace ++ [(pe, e, d)] }
-    if d then (acc, none)
-    else if M.v11 && M.isAny pe && !M.isAny e then ({ acc with precs := acc.precs ++ [(pe, e)] }, none)
-    else if M.v11 && M.isAny e && !M.isAny pe then ({ acc with precs := acc.precs ++ [(e, pe)] }, none)
-    else (acc, some (.upa pe e))
+  | .ok (some acc) => M.stage2 e cp pe pp acc
 
 /-- the inner loop `for pe, previous_path in paths.values()` -/
 def Ctx.against (e : Nat) (cp : List Nat) : List Entry → Acc → Acc × Option CMErr
